@@ -301,3 +301,105 @@ func mentionsField(info *types.Info, e ast.Node, name string) bool {
 	})
 	return found
 }
+
+// AgeTest is a boolean expression over three times-and-durations: true exactly when time T lies
+// more than D before N ("T is older than D"), however it is spelled:
+//
+//	T.Add(D).Before(N)   N.After(T.Add(D))   N.Sub(T) > D   D < N.Sub(T)   time.Since(T) > D   D < time.Since(T)
+//
+// Older is false for the opposite direction (After/Before swapped, < for >): the test then says "younger".
+// OrEqual marks the non-strict comparisons. N is nil for time.Since.
+type AgeTest struct {
+	T, D, N ast.Expr
+	Older   bool
+	OrEqual bool
+}
+
+func timeMethod(info *types.Info, e ast.Expr, name string) (recv ast.Expr, args []ast.Expr, ok bool) {
+	c, isCall := ast.Unparen(e).(*ast.CallExpr)
+	if !isCall {
+		return nil, nil, false
+	}
+	sel, isSel := ast.Unparen(c.Fun).(*ast.SelectorExpr)
+	if !isSel || sel.Sel.Name != name {
+		return nil, nil, false
+	}
+	if f, isF := info.Uses[sel.Sel].(*types.Func); !isF || !strings.HasPrefix(FuncKey(f), "time.Time.") {
+		return nil, nil, false
+	}
+	return sel.X, c.Args, true
+}
+
+func ageTest(info *types.Info, e ast.Expr) (AgeTest, bool) {
+	e = ast.Unparen(e)
+	// X.Before(Y) / X.After(Y) with one side T.Add(D)
+	for _, m := range []string{"Before", "After"} {
+		if x, args, ok := timeMethod(info, e, m); ok && len(args) == 1 {
+			y := args[0]
+			if t, d, ok := timeMethod(info, x, "Add"); ok && len(d) == 1 {
+				return AgeTest{T: t, D: d[0], N: y, Older: m == "Before"}, true
+			}
+			if t, d, ok := timeMethod(info, y, "Add"); ok && len(d) == 1 {
+				return AgeTest{T: t, D: d[0], N: x, Older: m == "After"}, true
+			}
+		}
+	}
+	be, isBin := e.(*ast.BinaryExpr)
+	if !isBin {
+		return AgeTest{}, false
+	}
+	age := func(x ast.Expr) (t, n ast.Expr, ok bool) {
+		if nn, args, ok := timeMethod(info, x, "Sub"); ok && len(args) == 1 {
+			return args[0], nn, true
+		}
+		if c, isCall := ast.Unparen(x).(*ast.CallExpr); isCall && len(c.Args) == 1 {
+			if f, ok := calleeFunc(info, c); ok && FuncKey(f) == "time.Since" {
+				return c.Args[0], nil, true
+			}
+		}
+		return nil, nil, false
+	}
+	switch be.Op {
+	case token.GTR, token.GEQ, token.LSS, token.LEQ:
+		if t, n, ok := age(be.X); ok { // age OP D
+			return AgeTest{T: t, D: be.Y, N: n, Older: be.Op == token.GTR || be.Op == token.GEQ, OrEqual: be.Op == token.GEQ || be.Op == token.LEQ}, true
+		}
+		if t, n, ok := age(be.Y); ok { // D OP age
+			return AgeTest{T: t, D: be.X, N: n, Older: be.Op == token.LSS || be.Op == token.LEQ, OrEqual: be.Op == token.GEQ || be.Op == token.LEQ}, true
+		}
+	}
+	return AgeTest{}, false
+}
+
+// isNowOnPath: the expression is time.Now() or a local assigned from it on the path (nil = time.Since).
+func isNowOnPath(info *types.Info, p *Path, idx int, e ast.Expr) bool {
+	if e == nil {
+		return true
+	}
+	if c, ok := ast.Unparen(OriginOnPath(info, p, idx, e)).(*ast.CallExpr); ok {
+		if f, ok := calleeFunc(info, c); ok {
+			k := FuncKey(f)
+			return k == "time.Now" || strings.HasSuffix(k, ".now") || strings.HasSuffix(k, ".timeNow")
+		}
+		// a package-level `var now = time.Now` indirection
+		if v, ok := ObjOf(info, c.Fun).(*types.Var); ok && v.Pkg() != nil && v.Parent() == v.Pkg().Scope() {
+			return true
+		}
+	}
+	return false
+}
+
+// branchConds: the conditions to examine for a branch event — as written and, when calls in it were
+// inlined, with their results put in; each split into its conjuncts.
+func branchConds(e Event) []ast.Expr {
+	var out []ast.Expr
+	for _, c := range []ast.Expr{e.Cond, e.CondVal} {
+		if c != nil {
+			out = append(out, c)
+			if cj := conjuncts(c); len(cj) > 1 {
+				out = append(out, cj...)
+			}
+		}
+	}
+	return out
+}
